@@ -808,6 +808,10 @@ package rosmar
 //@   ensures [C18:subdocWrite.insert-needs-doc]   insert && count("call:Collection.Get") >= 1 && callret("Collection.Get", 1) != nil ==> err != nil && iter("call:Collection.WriteCas") == 0
 //@   ensures [C18:subdocWrite.success]            err == nil ==> iter("call:Collection.WriteCas") == 1 && callret("Collection.WriteCas", 1) == nil && casOut == callret("Collection.WriteCas", 0)
 //@   ensures [C03,C18:subdocWrite.only-conditional-writes] count("sql") == 0
+//@   ensures [C18:subdocWrite.edits-the-addressed-parent] count("call:Collection.WriteCas") >= 1 ==> writtenmap() == mapid(callret("evalSubdocPath", 0)) && writtenkey() == callret("parseSubdocPath", 0)[len(callret("parseSubdocPath", 0)) - 1] && iter("mapupdate") + iter("mapdelete") == 1
+//@   ensures [C18:subdocWrite.sets-or-removes] count("call:Collection.WriteCas") >= 1 ==> (if value != nil then iter("mapupdate") == 1 else iter("mapdelete") == 1)
+//@   ensures [C18:subdocWrite.insert-checks-the-addressed-property] insert && count("call:Collection.WriteCas") >= 1 ==> mapwasread(mapid(callret("evalSubdocPath", 0)), callret("parseSubdocPath", 0)[len(callret("parseSubdocPath", 0)) - 1])
+//@   ensures [C18:subdocWrite.writes-the-document-it-walked] count("call:Collection.WriteCas") >= 1 ==> mapid(callarg("Collection.WriteCas", 4)) == mapid(callarg("evalSubdocPath", 0))
 //@   ensures [C03,C18:subdocWrite.decodes-into-fresh-map] count("call:Collection.Get") >= 1 ==> calltargetnil("Collection.Get", 2)
 //@   ensures [C20:subdocWrite.unlocked] any: nolocks()
 
